@@ -549,6 +549,11 @@ func (ex *Executor) loadLoc(st *State, l *LocV) Value {
 // package variables are treated as immutable after init (assumption
 // A-globals, checked by the frame sweep for in-repo writers).
 func (ex *Executor) globalValue(st *State, l *LocV) (Value, bool) {
+	if c := ex.Prog.GlobalConsts[l.Path]; c != nil && len(l.Idx) == 0 {
+		// package-level variable initialised to a constant, immutable after
+		// init (assumption A-globals; writers are caught by the frame sweep)
+		return ex.constVal(st, c), true
+	}
 	if fn := ex.Prog.GlobalFuncs[l.Path]; fn != nil {
 		// package-level func variable, immutable after init (assumption
 		// A-globals): resolve to the function it was initialised with
@@ -563,6 +568,10 @@ func (ex *Executor) globalValue(st *State, l *LocV) (Value, bool) {
 			}
 			ex.sentinelSeen[key] = true
 			ex.GlobalFacts = append(ex.GlobalFacts, nonNil(t), Not(App("fresh_error", SBool, t)))
+			if i := strings.LastIndexByte(l.Path, '.'); i >= 0 && i+1 < len(l.Path) && l.Path[i+1] >= 'a' && l.Path[i+1] <= 'z' {
+				// unexported sentinel: the environment cannot return it
+				ex.GlobalFacts = append(ex.GlobalFacts, Not(App("env_error", SBool, t)))
+			}
 			for _, o := range ex.sentinels {
 				ex.GlobalFacts = append(ex.GlobalFacts, Neq(t, o))
 			}
